@@ -600,9 +600,92 @@ def terms_conn(case, obs):
     return {"chk_conn": f"({cq(Fr(case['thr']))}, {atoms}, {clist(obs['pairs'], lambda p: '(' + cnat(p[0]) + ', ' + cnat(p[1]) + ')')})"}
 
 
+# ---- kind "collinear": straight, folded-back and nearly collinear triples; linear molecules through measure ----------
+
+def ref_angle(p1, p2, p3):
+    """textbook angle at p2 from exact rationals, accurate also near 0 and pi: atan2(|u x v|, u.v)"""
+    u, v = fsub(p1, p2), fsub(p3, p2)
+    c = fcross(u, v)
+    return math.atan2(fsqrt(fdot(c, c)), float(fdot(u, v)))
+
+
+def oracle_collinear(case):
+    cd, ca, ct, mc, dm, _ = impl()
+    fails = []
+    obs = {}
+    dg = case["degrees"]
+    if case["via"] == "angle":
+        rows = [json_pts(r) for r in case["rows"]]
+        cols = [[r[i] for r in rows] for i in range(3)]
+        A = [np_in(c, case["form"]) for c in cols]
+        out = call(ca, *A, degrees=dg)
+        obs["out"] = out
+        if out[0] != "Ok":
+            fails.append({"what": f"compute_angle raised {out[1]} on (nearly) collinear points", "observed": repr(out)})
+            return fails, obs
+        vals = np.atleast_1d(out[1])
+        if len(vals) != len(rows):
+            fails.append({"what": "compute_angle: wrong number of results", "observed": repr(out)})
+            return fails, obs
+        for r, v in zip(rows, vals):
+            a = math.radians(float(v)) if dg else float(v)
+            ref = ref_angle(*r)
+            if not math.isfinite(a):
+                fails.append({"what": "compute_angle is not finite (nan) on straight / folded-back / nearly collinear points",
+                              "observed": {"points": pts_json(r), "value": repr(v), "textbook": ref}})
+            elif not (0.0 <= a <= math.pi + 1e-12) or abs(a - ref) > 1e-6:
+                fails.append({"what": "compute_angle on (nearly) collinear points differs from the textbook angle / leaves [0,pi]",
+                              "observed": {"points": pts_json(r), "value": a, "textbook": ref}})
+        return fails, obs
+    # a linear molecule in general orientation through measure_coordinates / Molecule.measure
+    P = json_pts(case["coords"])
+    coords = to_np(P)
+    ms = case["ms"]
+    if case["via"] == "molecule":
+        from qcelemental.models import Molecule
+        mol = Molecule(symbols=["He"] * len(P), geometry=coords, nonphysical=True)
+        out = call(mol.measure, ms) if dg else call(mol.measure, ms, degrees=False)
+    else:
+        out = call(mc, coords, ms, degrees=dg)
+    obs["out"] = out
+    if out[0] != "Ok" or len(out[1]) != len(ms):
+        fails.append({"what": "measure raised / wrong length on a linear molecule", "observed": repr(out)})
+        return fails, obs
+    for m, v in zip(ms, out[1]):
+        a = math.radians(float(v)) if (dg and len(m) != 2) else float(v)
+        if not math.isfinite(a):
+            fails.append({"what": f"measure {m} on a linear molecule is not finite (nan)", "observed": {"m": m, "value": repr(v)}})
+            continue
+        if len(m) == 3:
+            ref = ref_angle(*[P[i] for i in m])
+            if not (0.0 <= a <= math.pi + 1e-12) or abs(a - ref) > 1e-6:
+                fails.append({"what": "angle in a linear molecule is not 0 / pi", "observed": {"m": m, "value": a, "textbook": ref}})
+        elif len(m) == 4 and not (-math.pi - 1e-12 <= a <= math.pi + 1e-12):
+            fails.append({"what": "dihedral in a linear molecule outside [-pi,pi]", "observed": {"m": m, "value": a}})
+        elif len(m) == 2:
+            ref = fsqrt(fdot(fsub(P[m[0]], P[m[1]]), fsub(P[m[0]], P[m[1]])))
+            if abs(a - ref) > 1e-7 * (1 + ref):
+                fails.append({"what": "distance in a linear molecule differs from |p-q|", "observed": {"m": m, "value": a, "textbook": ref}})
+    return fails, obs
+
+
+def terms_collinear(case, obs):
+    """the generated code on the same (nearly) collinear rows (cosine residual only)"""
+    if case["via"] != "angle":
+        return {}
+    out = obs.get("out")
+    if out is None or (out[0] == "Ok" and not finite(out[1])):
+        return {}
+    rows = [json_pts(r) for r in case["rows"]]
+    cols = [[r[i] for r in rows] for i in range(3)]
+    A = [carr(c, case["form"]) for c in cols]
+    dg = case["degrees"]
+    return {"chk_angle": f"({A[0]}, {A[1]}, {A[2]}, {cexp(out, lambda v: clist(rad(v, dg), ccs))})"}
+
+
 ORACLES = {"single": (oracle_single, terms_single), "batched": (oracle_batched, terms_batched),
            "measure": (oracle_measure, terms_measure), "distmat": (oracle_distmat, terms_distmat),
-           "conn": (oracle_conn, terms_conn)}
+           "conn": (oracle_conn, terms_conn), "collinear": (oracle_collinear, terms_collinear)}
 CHK_TY = {
     "chk_distance": "arr QK * arr QK * expect (list Q)",
     "chk_angle": "arr QK * arr QK * arr QK * expect (list (Q * Q))",
@@ -636,6 +719,11 @@ def gen_cases(ctx):
     cases.append({"kind": "batched", "stream": "corpus", "fn": "dihedral", "degrees": True, "shapes": ["n"] * 4,
                   "cols": [z(("77/8", "13/2", "5/2"), ("-6/5", 2, 10)), z(("-3/2", "-39/4", -10), (9, -7, "25/4")),
                            z((7, "-9/2", 7), (-8, "65/8", "9/2")), z((-3, "3/2", "-11/10"), (5, -8, 1))]})
+    for tri, form in ((z((-4, -4, -4), (-2, -2, -2), (0, 0, 0)), "1d"), (z((1, 2, 3), (2, 4, 6), (4, 8, 12)), "2d"),
+                      (z((3, 3, 3), (1, 1, 1), (2, 2, 2)), "1d"), (z(("1/3", "-2/3", 1), (1, -2, 3), (-1, 2, -3)), "2d")):
+        cases.append({"kind": "collinear", "stream": "corpus", "via": "angle", "rows": [tri], "form": form, "degrees": False})
+    cases.append({"kind": "collinear", "stream": "corpus", "via": "molecule", "degrees": True,
+                  "coords": z((-4, -4, -4), (-2, -2, -2), (0, 0, 0), (3, 3, 3)), "ms": [[0, 1, 2], [2, 0, 1], [0, 1, 2, 3], [0, 3]]})
     # single rows
     for _ in range(12000 if T else 700):
         P = rnd_quad(rng)
@@ -690,6 +778,47 @@ def gen_cases(ctx):
             ms = [rnd_m() for _ in range(rng.choice([0, 1, 2, 3, 3]))]
         cases.append({"kind": "measure", "stream": "measure", "coords": pts_json(P), "ms": ms, "degrees": rng.random() < 0.5,
                       "via": "molecule" if rng.random() < 0.3 else "function"})
+    # straight / folded-back / nearly collinear triples (lattice and random directions), scalar and batched; linear molecules
+    def rnd_dir():
+        if rng.random() < 0.5:
+            d = tuple(Fr(rng.randint(-3, 3)) for _ in range(3))
+        else:
+            d = tuple(rnd_coord(rng, 2) for _ in range(3))
+        return d if any(d) else (Fr(1), Fr(1), Fr(1))
+
+    def rnd_line_triple():
+        while True:
+            d = rnd_dir()
+            p2 = rnd_point(rng, 4)
+            a = Fr(rng.choice([-3, -2, -1, 1, 2, 3]), rng.choice([1, 2, 4]))
+            b = Fr(rng.choice([-3, -2, -1, 1, 2, 3]), rng.choice([1, 1, 2, 5]))
+            p1 = tuple(p2[i] + a * d[i] for i in range(3))
+            p3 = tuple(p2[i] + b * d[i] for i in range(3))
+            r = rng.random()
+            if r < 0.4:          # nearly collinear: a tiny rational push off the line
+                eps = Fr(1, 10 ** rng.choice([6, 7, 9, 11, 13]))
+                wv = tuple(Fr(rng.randint(-3, 3)) for _ in range(3))
+                p3 = tuple(p3[i] + eps * wv[i] for i in range(3))
+            if all(abs(c) <= 10 for p in (p1, p2, p3) for c in p):
+                return [p1, p2, p3]
+    for _ in range(6000 if T else 400):
+        k = rng.choice([1, 1, 1, 2, 3, 5])
+        rows = [rnd_line_triple() for _ in range(k)]
+        cases.append({"kind": "collinear", "stream": "collinear", "via": "angle", "rows": [pts_json(r) for r in rows],
+                      "form": "1d" if (k == 1 and rng.random() < 0.5) else "2d", "degrees": rng.random() < 0.5})
+    for _ in range(1500 if T else 120):
+        n = rng.randint(3, 6)
+        d = rnd_dir()
+        o = rnd_point(rng, 3)
+        ks = rng.sample([Fr(k, 2) for k in range(-6, 7)], n)
+        P = [tuple(o[i] + k * d[i] for i in range(3)) for k in ks]
+        if any(abs(c) > 10 for p in P for c in p) or fdot(d, d) < Fr(1, 2):
+            continue
+        ms = []
+        for _m in range(rng.randint(1, 4)):
+            ms.append(rng.sample(range(n), rng.choice([2, 3, 3, 3, 4]) if n >= 4 else rng.choice([2, 3, 3])))
+        cases.append({"kind": "collinear", "stream": "collinear", "via": rng.choice(["function", "function", "molecule"]),
+                      "coords": pts_json(P), "ms": ms, "degrees": rng.random() < 0.5})
     # distance_matrix
     for _ in range(600 if T else 60):
         a = [rnd_point(rng) for _ in range(rng.randint(1, 5))]
@@ -724,7 +853,8 @@ def correspond(ctx):
     corr = Corr()
     corr.rule = ("random rational point sets in [-10,10]^3 (denominators 1..16), non-degenerate (bond vectors >= 0.5, |sin| >= 0.2 "
                  "between consecutive bonds) x rational rigid motions / reflections from integer quaternions x 1-D / (1,3) / (n,3) "
-                 "shapes x degrees flag; measure index lists incl. negative, out-of-range and wrong-length; molecules of 1-15 atoms "
+                 "shapes x degrees flag; straight / folded-back / nearly collinear triples on lattice and random directions (scalar, batched, and "
+                 "as linear molecules through measure_coordinates / Molecule.measure); measure index lists incl. negative, out-of-range and wrong-length; molecules of 1-15 atoms "
                  "x thresholds for connectivity. A case is non-trivial if the implementation returned a value (not an exception) "
                  "and the point set is non-degenerate; distinct = distinct inputs")
     cases = gen_cases(ctx)
